@@ -10,6 +10,7 @@ from __future__ import annotations
 
 import ast
 
+from pv.q import text as qtext
 from pv.model import AnalysisError, walk_no_nested, params, UNKNOWN
 from pv.norm import single_defs
 
@@ -59,7 +60,7 @@ def rule_ab(model, rep):
               witness="using() returns (and later mutates) the original hasher: passlib.hash.<x> changes behaviour for every user")
     if ok:
         d = rets[0].value.args[2]
-        rep.check("_configured=True" in ast.unparse(d), RA, site(UH, "MinimalHandler.using"), ast.unparse(d), "the subclass is flagged _configured")
+        rep.check("_configured=True" in qtext(d), RA, site(UH, "MinimalHandler.using"), ast.unparse(d), "the subclass is flagged _configured")
     rep.check(not list(_attr_stores(fn)), RB, site(UH, "MinimalHandler.using"), "no attribute stores", "base using() stores nothing on cls")
     for un, q, fn in _using_defs(model):
         s = site(un, q)
@@ -219,7 +220,7 @@ def rule_e(model, rep):
             if ok:
                 rel, strict = inner[0].body, inner[0].orelse
                 ok_rel = any(isinstance(x, ast.Assign) and ast.unparse(x) == f"{var} = {bound}" for x in rel)
-                ok_strict = any(isinstance(x, ast.Raise) and "ValueError" in ast.unparse(x) for x in strict)
+                ok_strict = any(isinstance(x, ast.Raise) and qtext(x).loose("ValueError") for x in strict)
                 rep.check(ok_rel, R, s, f"{label}: relaxed branch", f"relaxed=True clamps to the limit (`{var} = {bound}`)",
                           witness="relaxed=True keeps an out-of-range value (hash outside the format's limits)")
                 rep.check(ok_strict, R, s, f"{label}: strict branch", "relaxed=False raises ValueError",
@@ -239,7 +240,7 @@ def rule_e(model, rep):
               witness="rounds above max_rounds accepted / min and max swapped")
     # _norm_salt size checks
     fn = model.func(UH, "HasSalt._norm_salt")
-    txt = ast.unparse(fn)
+    txt = qtext(fn)
     rep.check("if mn and len(salt) < mn:" in txt and "if mx and len(salt) > mx:" in txt, R, site(UH, "HasSalt._norm_salt"), "len(salt) < mn / > mx",
               "salt length is checked against both limits")
     rep.check("salt = cls._truncate_salt(salt, mx)" in txt, R, site(UH, "HasSalt._norm_salt"), "relaxed: truncate to mx", "relaxed=True truncates an over-long salt to the maximum")
@@ -279,7 +280,7 @@ def rule_f(model, rep):
 def rule_gh(model, rep):
     R = "C09.g-rounds-window"
     fn = model.func(UH, "HasRounds._generate_rounds")
-    txt = ast.unparse(fn)
+    txt = qtext(fn)
     ok = "lower, upper = cls._calc_vary_rounds_range(rounds)" in txt and "rounds = rng.randint(lower, upper)" in txt
     rep.check(ok, R, site(UH, "HasRounds._generate_rounds"), "rng.randint(lower, upper) from _calc_vary_rounds_range", "varied rounds are drawn between the computed bounds",
               witness="vary_rounds produces costs outside the configured window")
@@ -289,19 +290,19 @@ def rule_gh(model, rep):
     rep.check("(cls._clip_to_desired_rounds(lower), cls._clip_to_desired_rounds(upper))" in rets, R, site(UH, "HasRounds._calc_vary_rounds_range"),
               "; ".join(rets), "both ends of the variation range are clipped to the desired window",
               witness="default_rounds=max with vary_rounds>0 yields hashes above max_rounds (flagged for update at once)")
-    rep.check("lower = linear_to_native(default_rounds - vary_rounds, False)" in ast.unparse(fn) and
-              "upper = linear_to_native(default_rounds + vary_rounds, True)" in ast.unparse(fn), R, site(UH, "HasRounds._calc_vary_rounds_range"),
+    rep.check("lower = linear_to_native(default_rounds - vary_rounds, False)" in qtext(fn) and
+              "upper = linear_to_native(default_rounds + vary_rounds, True)" in qtext(fn), R, site(UH, "HasRounds._calc_vary_rounds_range"),
               "default -/+ vary", "range is default_rounds -/+ vary_rounds")
     # using(): default clipped to new limits after all three are set
     fn = model.func(UH, "HasRounds.using")
-    txt = ast.unparse(fn)
+    txt = qtext(fn)
     rep.check("subcls.default_rounds = subcls._clip_to_desired_rounds(subcls.default_rounds)" in txt, R, site(UH, "HasRounds.using"),
               "subcls.default_rounds = subcls._clip_to_desired_rounds(subcls.default_rounds)", "the default cost is re-clipped into the new window",
               witness="min_rounds raised above the inherited default: new hashes are made below the minimum and flagged at once")
     # order: clip statement comes after the stores of min/max/default
     idx = {k: None for k in ("min", "max", "default", "clip")}
     for i, st in enumerate(fn.body):
-        t = ast.unparse(st)
+        t = qtext(st)
         if "subcls.min_desired_rounds = " in t:
             idx["min"] = i
         if "subcls.max_desired_rounds = " in t:
@@ -325,8 +326,8 @@ def rule_gh(model, rep):
                 sup = any(isinstance(n, ast.Call) and ast.unparse(n.func) == "super()._generate_rounds" for n in ast.walk(g))
                 modifies = any(isinstance(r.value, ast.BinOp) for r in rets) or any(isinstance(n, ast.AugAssign) for n in walk_no_nested(g))
                 if sup and modifies:
-                    t = ast.unparse(g)
-                    guarded = ("max_desired_rounds" in t or "max_rounds" in t or "_clip_to_desired_rounds" in t)
+                    t = qtext(g)
+                    guarded = (t.loose("max_desired_rounds") or t.loose("max_rounds") or t.loose("_clip_to_desired_rounds"))
                     rep.check(guarded, R, s, "; ".join(ast.unparse(r) for r in rets),
                               "a generator that alters the value from super()._generate_rounds() must keep it inside the configured window",
                               witness="max_rounds=5000 (even): a fresh bsdi_crypt hash has 5001 rounds and needs_update() is True on every login")
@@ -334,15 +335,15 @@ def rule_gh(model, rep):
                     rep.hold(R, s, "override does not alter the generated value")
     # constructor paths store rounds only through _parse_rounds / _generate_rounds
     fn = model.func(UH, "HasRounds.__init__")
-    txt = ast.unparse(fn)
+    txt = qtext(fn)
     rep.check("rounds = self._parse_rounds(rounds)" in txt and "rounds = self._generate_rounds()" in txt and "self.rounds = rounds" in txt, R,
               site(UH, "HasRounds.__init__"), "parse or generate", "instance rounds come from _parse_rounds (explicit) or _generate_rounds (default)")
     fn = model.func(UH, "HasSalt.__init__")
-    txt = ast.unparse(fn)
+    txt = qtext(fn)
     rep.check("salt = self._parse_salt(salt)" in txt and "salt = self._generate_salt()" in txt and "self.salt = salt" in txt, R,
               site(UH, "HasSalt.__init__"), "parse or generate", "instance salt comes from _parse_salt (explicit) or _generate_salt (default)")
     fn = model.func(UH, "HasManyIdents.__init__")
-    txt = ast.unparse(fn)
+    txt = qtext(fn)
     rep.check("ident = self.default_ident" in txt and "ident = self._norm_ident(ident)" in txt, R, site(UH, "HasManyIdents.__init__"), "default_ident",
               "default ident is read from the attribute using() stores")
     # H: every attribute stored by a using() is read on some hash-making path
